@@ -17,6 +17,7 @@ os.chdir(REPO)
 os.environ.setdefault("POLAR_VERIF", "1")
 
 import sympy  # noqa: E402
+import sympy.stats  # noqa: E402
 import symengine  # noqa: E402
 
 
@@ -1351,7 +1352,47 @@ def job_synth(job):
     return res
 
 
-JOBS = {"synth": job_synth, "funcmoment": job_funcmoment, "bayesnet": job_bayesnet, "dists": job_dists, "invariants": job_invariants, "session": job_session, "accepts": job_accepts, "analyze": job_analyze, "linrec": job_linrec, "explattice": job_explattice, "simulate": job_simulate}
+def job_expansions(job):
+    """Gram-Charlier densities and Cornish-Fisher quantile polynomials for several cumulant vectors, one after the
+    other in this process (as a long-lived process would compute them)"""
+    from expansions import GramCharlierExpansion, CornishFisherExpansion
+    out = []
+    x, z = sympy.Symbol("x"), sympy.Symbol("z")
+    for item in job["vectors"]:
+        o = {"vid": item["vid"]}
+        cum = {i + 1: sympy.Rational(c) for i, c in enumerate(item["cumulants"])}
+        signal.alarm(60)
+        try:
+            dens = GramCharlierExpansion(dict(cum))()
+            mu, sigma = cum[1], sympy.sqrt(cum[2])
+            phi = sympy.stats.density(sympy.stats.Normal("_", mu, sigma))(x)
+            P = sympy.Poly(sympy.simplify(dens / phi), x)
+            o["gc"] = [[frac_str(c), int(m[0])] for m, c in P.terms()]
+        except JobTimeout:
+            o["gc_exc"] = "timeout"
+        except Exception as ex:
+            o["gc_exc"] = f"{type(ex).__name__}: {str(ex)[:150]}"
+        finally:
+            signal.alarm(0)
+        signal.alarm(60)
+        try:
+            cf = CornishFisherExpansion(dict(cum))
+            w = sympy.sympify(cf.z + sum([cf.xi(k) for k in range(1, len(cum) - 1)]))
+            P = sympy.Poly(sympy.expand(w), z)
+            o["cf"] = [[frac_str(c), int(m[0])] for m, c in P.terms()]
+            full = sympy.sympify(cf())
+            o["cf_full"] = str(full)[:300]
+        except JobTimeout:
+            o["cf_exc"] = "timeout"
+        except Exception as ex:
+            o["cf_exc"] = f"{type(ex).__name__}: {str(ex)[:150]}"
+        finally:
+            signal.alarm(0)
+        out.append(o)
+    return {"id": job["id"], "vectors": out}
+
+
+JOBS = {"expansions": job_expansions, "synth": job_synth, "funcmoment": job_funcmoment, "bayesnet": job_bayesnet, "dists": job_dists, "invariants": job_invariants, "session": job_session, "accepts": job_accepts, "analyze": job_analyze, "linrec": job_linrec, "explattice": job_explattice, "simulate": job_simulate}
 
 
 def handle(job):
